@@ -377,6 +377,25 @@ class TestCmd:
         ctx.sample = {"campaign": self.name, "pattern": pattern, "start": text, "epoch": case["epoch"],
                       "ops": case["ops"][:3]}
         generated = False
+        # C02 on the start version itself (rendered by the reference from boundary part values): bumpver's own pattern
+        # must accept it in full, read every part back equal and re-render it byte for byte
+        f0 = facts_for(tree, state, None, {}, pattern)
+        try:
+            if not adapter.full_match(text, pattern):
+                ctx.violation("C02", "render_not_recognised", dict(f0, text=text, start=True),
+                              "start version %r (reference rendering of %s) is not accepted by its pattern %r" % (text, state, pattern))
+            else:
+                vinfo = adapter.parse(text, pattern)
+                again = adapter.fmt(vinfo, pattern)
+                if again != text:
+                    ctx.violation("C02", "rerender_differs", dict(f0, text=text, again=again, start=True),
+                                  "start version %r re-renders as %r (pattern %r)" % (text, again, pattern))
+                ctx.probe("start_version_round_trip")
+        except invoker.HarnessError:
+            raise
+        except Exception as ex:
+            ctx.violation("C02", "render_not_recognised", dict(f0, text=text, start=True, exc=type(ex).__name__),
+                          "start version %r cannot be read with %r: %s" % (text, pattern, ex))
         for step, op in enumerate(case["ops"]):
             delta = op.get("delta", 0)
             clock = step_clock(ctx, clock, delta, two_digit)
